@@ -111,11 +111,11 @@ theorem slots_dense (code : NCode) :
 section Example2
 private def s0 : Span := ⟨0, 0, 0, 0⟩
 private def renEx : NCode :=
-  [(.setVar "@m_x0", s0), (.setVar "@m_y0", s0), (.getVar "@m_x0", s0), (.jump 7, s0), (.getVar "@m_y0", s0)]
+  [(.setVar "@m.x.0", s0), (.setVar "@m.y.0", s0), (.getVar "@m.x.0", s0), (.jump 7, s0), (.getVar "@m.y.0", s0)]
 
 example : renameVars renEx =
     [(.setVar 0, s0), (.setVar 1, s0), (.getVar 0, s0), (.jump 7, s0), (.getVar 1, s0)] := rfl
-example : slotFn renEx "@m_x0" = 0 ∧ slotFn renEx "@m_y0" = 1 ∧ distinctNames renEx = ["@m_x0", "@m_y0"] := by
+example : slotFn renEx "@m.x.0" = 0 ∧ slotFn renEx "@m.y.0" = 1 ∧ distinctNames renEx = ["@m.x.0", "@m.y.0"] := by
   decide
 end Example2
 
@@ -150,14 +150,14 @@ def ex1 : Expr :=
     (.int sp0 3)
 
 def cs0 : CState :=
-  { fns := [(("main", "main"), { name := "@main_main", code := [(.addMp 1, sp0)] })],
-    currFn := "main", currModule := "main", scopes := [[("x", "@main_x0")]] }
+  { fns := [(("main", "main"), { name := "@main.main", code := [(.addMp 1, sp0)] })],
+    currFn := "main", currModule := "main", scopes := [[("x", "@main.x.0")]] }
 
 example : Frag.straight ex1 = true ∧ Frag.depth ex1 ≤ 4 ∧ ∀ x ∈ Frag.vars ex1, (ρOf cs0 x).isSome = true := by
   decide
 
 example : cstraightSp (ρOf cs0) ex1 =
-    [(.copyPush (.int 1), sp0), (.getVar "@main_x0", sp0), (.add, spA), (.copyPush (.int 3), sp0), (.mul, spM)] := rfl
+    [(.copyPush (.int 1), sp0), (.getVar "@main.x.0", sp0), (.add, spA), (.copyPush (.int 3), sp0), (.mul, spM)] := rfl
 
 /-- The statement instantiated: the real `compileExpr` run agrees. -/
 example : (((compileExpr 4 ex1).run cs0).2.fns.lookup ("main", "main")).map (·.code) =
@@ -244,9 +244,9 @@ section Example4
 private def symCode : SCode :=
   [(.addMp 1, sp0)] ++ cstraightSp (ρOf cs0) ex1 ++ [(.label "end", sp0), (.ret, sp0)]
 private def relCode : NCode := (stripLabels symCode).map (resolve (labelIndex symCode))
-private def vmCode : Code := [{ name := "@main_main", code := renameVars relCode }]
+private def vmCode : Code := [{ name := "@main.main", code := renameVars relCode }]
 /-- `x = 3` in slot 0 at `mp = 5`; the frame is at instruction 1 (after `addMp`). -/
-private def vm0 : VMState := { calls := [⟨"@main_main", 1⟩], mp := 5, mem := [(5, .int 3)] }
+private def vm0 : VMState := { calls := [⟨"@main.main", 1⟩], mp := 5, mem := [(5, .int 3)] }
 private def spec0 : St := { scopes := [[("x", .int 3)]] }
 
 private theorem relocate_symCode : relocate symCode = some relCode := rfl
@@ -255,14 +255,14 @@ private theorem env0 : EnvRel (ρOf cs0) (slotFn relCode) {} (Frag.vars ex1) spe
   intro x hx
   have : x = "x" := by simpa [Frag.vars, ex1] using hx
   subst this
-  exact ⟨"@main_x0", .int 3, rfl, rfl, by decide, by decide, rfl⟩
+  exact ⟨"@main.x.0", .int 3, rfl, rfl, by decide, by decide, rfl⟩
 
 /-- `(1 + x) * 3` with `x = 3`: the specification says 12 … -/
 example : evalExpr { prog := [] } 4 ex1 spec0 = (.ok (.int 12), spec0) := rfl
 /-- … and five VM steps push 12 (the statement instantiated through all three passes). -/
 example : execN vmCode {} 5 vm0 = .next (done vm0 5 (.int 12)) := by
   have h := compiled_straight_correct { prog := [] } vmCode {} (ρOf cs0) 4 ex1 spec0 vm0
-    ⟨"@main_main", 1⟩ [] [(.addMp 1, sp0)] [(.label "end", sp0), (.ret, sp0)] relCode
+    ⟨"@main.main", 1⟩ [] [(.addMp 1, sp0)] [(.label "end", sp0), (.ret, sp0)] relCode
     (by decide) relocate_symCode rfl rfl rfl env0 rfl
   have hev : evalExpr { prog := [] } 4 ex1 spec0 = (.ok (.int 12), spec0) := rfl
   rw [hev] at h
@@ -288,7 +288,7 @@ example : ∃ s', execN vmCode2 {} 5 vm2 =
   · intro x hx
     have : x = "x" := by simpa [Frag.vars, ex2] using hx
     subst this
-    exact ⟨"@main_x0", .int 3, rfl, rfl, by decide, by decide, rfl⟩
+    exact ⟨"@main.x.0", .int 3, rfl, rfl, by decide, by decide, rfl⟩
 end Example4
 
 /-! ## 5. Pure expressions with control flow: `&&`, `||`, `if`/`else` -/
@@ -306,18 +306,19 @@ theorem compileExpr_pure (fuel : Nat) (e : Expr) (cs : CState)
   Sim.compileExpr_pure fuel e cs hs hd hv
 
 /-- **Label hygiene.** The labels defined in the code of a pure expression are pairwise
-distinct, and each is `<module>_<ident><n>` with `n` between the counter of `ident` before and
+distinct, and each is `<module>.<ident>.<n>` with `n` between the counter of `ident` before and
 after — so they differ from every label generated earlier or later (names are injective:
 `labelName_inj`). This is what makes `relocateLabels`' "last definition wins" harmless. -/
 theorem pure_labels_fresh (mod : String) (ρ : String → Option String) (e : Expr) (lm : LM) :
     LblInv mod lm (cpE mod ρ e lm).2 (definedLabels (cpE mod ρ e lm).1) :=
   (cpE_labels mod ρ (Frag.depthE e)).1 e lm (Nat.le_refl _)
 
-/-- **Label names are injective**: `<module>_<ident><n>` determines `(ident, n)` for digit-free
-identifiers — all identifiers `mangleLabel` is called with (`labelIdents_noDigits`). -/
-theorem label_names_injective (mod id1 id2 : String) (c1 c2 : Nat) (h1 : NoDigits id1) (h2 : NoDigits id2)
+/-- **Label names are injective**: for a fixed module, `<module>.<ident>.<n>` (what `mangleLabel`
+returns: `freshLabel_fst`) determines `(ident, n)` — for every identifier, digits or dots
+included: `n` is what follows the last `.`. -/
+theorem label_names_injective (mod id1 id2 : String) (c1 c2 : Nat)
     (h : labelName mod id1 c1 = labelName mod id2 c2) : id1 = id2 ∧ c1 = c2 :=
-  labelName_inj mod id1 id2 c1 c2 h1 h2 h
+  labelName_inj mod id1 id2 c1 c2 h
 
 /-- **Values.** `Placed`: the VM code of the current function holds `e`'s code (labels stripped,
 lowered through `lab`, `σ`) from the frame's `ip` on, and `lab` sends each label defined in it
@@ -385,15 +386,15 @@ example : Frag.pureE ex3 = true ∧ Frag.depthE ex3 ≤ 5 := by decide
 
 /-- The emitted code, labels and all … -/
 example : (cpE "main" (ρOf cs0) ex3 []).1 =
-    [(.getVar "@main_x0", sp0), (.copyPush (.int 2), sp0), (.gt, sp0),
-     (.jumpIfFalse "main_return_false0", spL),
-     (.getVar "@main_x0", sp0), (.copyPush (.int 5), sp0), (.eq, sp0), (.not, sp0),
-     (.jump "main_after_infix0", spL), (.label "main_return_false0", spL),
-     (.copyPush (.bool false), spL), (.label "main_after_infix0", spL),
-     (.jumpIfFalse "main_else0", spI),
-     (.getVar "@main_x0", sp0), (.copyPush (.int 2), sp0), (.mul, sp0),
-     (.jump "main_if_after0", spI), (.label "main_else0", spI),
-     (.copyPush (.int 0), sp0), (.label "main_if_after0", spI)] := rfl
+    [(.getVar "@main.x.0", sp0), (.copyPush (.int 2), sp0), (.gt, sp0),
+     (.jumpIfFalse "main.return_false.0", spL),
+     (.getVar "@main.x.0", sp0), (.copyPush (.int 5), sp0), (.eq, sp0), (.not, sp0),
+     (.jump "main.after_infix.0", spL), (.label "main.return_false.0", spL),
+     (.copyPush (.bool false), spL), (.label "main.after_infix.0", spL),
+     (.jumpIfFalse "main.else.0", spI),
+     (.getVar "@main.x.0", sp0), (.copyPush (.int 2), sp0), (.mul, sp0),
+     (.jump "main.if_after.0", spI), (.label "main.else.0", spI),
+     (.copyPush (.int 0), sp0), (.label "main.if_after.0", spI)] := rfl
 
 /-- … is what the real `compileExpr` produces (statement instantiated). -/
 example : (((compileExpr 5 ex3).run cs0).2.fns.lookup ("main", "main")).map (·.code) =
@@ -402,28 +403,28 @@ example : (((compileExpr 5 ex3).run cs0).2.fns.lookup ("main", "main")).map (·.
   rfl
 
 private def symCode3 : SCode :=
-  [(.addMp 1, sp0)] ++ (cpE "main" (ρOf cs0) ex3 []).1 ++ [(.label "main_cleanup0", sp0), (.ret, sp0)]
+  [(.addMp 1, sp0)] ++ (cpE "main" (ρOf cs0) ex3 []).1 ++ [(.label "main.cleanup.0", sp0), (.ret, sp0)]
 private def relCode3 : NCode := (stripLabels symCode3).map (resolve (labelIndex symCode3))
-private def vmCode3 : Code := [{ name := "@main_main", code := renameVars relCode3 }]
-private def vm3 : VMState := { calls := [⟨"@main_main", 1⟩], mp := 5, mem := [(5, .int 3)] }
+private def vmCode3 : Code := [{ name := "@main.main", code := renameVars relCode3 }]
+private def vm3 : VMState := { calls := [⟨"@main.main", 1⟩], mp := 5, mem := [(5, .int 3)] }
 private def spec3 : St := { scopes := [[("x", .int 3)]] }
 
 /-- With `x = 3` the specification says 6, and the VM — through `relocate`, `renameVars`, both
 conditional jumps and the final `jump` — arrives at instruction 17 with 6 pushed. -/
 example : ∃ k, execN vmCode3 {} k vm3 = .next (reach vm3 17 k [⟨.int 6, none⟩] vm3.mem) := by
   have h := compiled_pure_correct { prog := [] } vmCode3 {} "main" (ρOf cs0) 5 ex3 [] spec3 vm3
-    ⟨"@main_main", 1⟩ [] [(.addMp 1, sp0)] [(.label "main_cleanup0", sp0), (.ret, sp0)] relCode3 [] vm3.mem
+    ⟨"@main.main", 1⟩ [] [(.addMp 1, sp0)] [(.label "main.cleanup.0", sp0), (.ret, sp0)] relCode3 [] vm3.mem
     (by decide) (by rfl) (by decide) rfl rfl ?_ rfl
   · have hev : evalExpr { prog := [] } 5 ex3 spec3 = (.ok (.int 6), spec3) := rfl
     rw [hev] at h
-    exact h.2.from_state (f := ⟨"@main_main", 1⟩) rfl
+    exact h.2.from_state (f := ⟨"@main.main", 1⟩) rfl
   · intro x hx
     have : x = "x" := by
       simp only [Frag.varsE, Frag.varsB, ex3, List.mem_append, List.mem_singleton, List.not_mem_nil,
         or_self, or_false] at hx
       exact hx
     subst this
-    exact ⟨"@main_x0", .int 3, rfl, rfl, by decide, by decide, rfl⟩
+    exact ⟨"@main.x.0", .int 3, rfl, rfl, by decide, by decide, rfl⟩
 end Example5
 
 /-! ## 6. `let`, assignment, `if`, `while` -/
@@ -442,41 +443,42 @@ theorem compileStmts_frag (fuel : Nat) (ss : List Stmt) (cs : CState)
   have := (compile_stmt fuel).2.1 ss cs hs hd cs.loops [] (envOf cs) hws
   rwa [updS_self, List.nil_append] at this
 
-/-- **Mangled variable names collide** (finding V26): the first `x1` and the eleventh `x` of a
-function get the same name, hence — by `slots_injective` — the same slot. On the models: the
-program `let x1 = 100; let x = 0; …; let x = 10; println(x1)` prints `100` under the
-specification and `10` on the VM. The theorems below therefore assume that no identifier of the
-fragment ends in a digit; under that assumption names are injective (`mangleName_inj`). -/
-theorem mangling_collision : mangleName "main" "x1" 0 = mangleName "main" "x" 10 := by decide
+/-- **Mangled variable names are injective** (the scheme after the fix of finding V26): for a
+fixed module, `@<module>.<ident>.<n>` (what `mangleVar` returns: `freshVar`) determines
+`(ident, n)` — for every identifier, no hypothesis on its characters: the decimal `n` contains no
+`.`, so it is what follows the last `.` of the name. Distinct declarations therefore get distinct
+names, hence — by `slots_injective` — distinct slots. -/
+theorem mangled_names_injective (mod x y : String) (c d : Nat)
+    (h : mangleName mod x c = mangleName mod y d) : x = y ∧ c = d :=
+  mangleName_inj mod x y c d h
+
+/-- The names that collided under the old scheme `@<module>_<ident><n>` (`x1`,0 and `x`,10 both
+gave `@main_x10`) are now different. -/
+example : mangleName "main" "x1" 0 = "@main.x1.0" ∧ mangleName "main" "x" 10 = "@main.x.10" ∧
+    mangleName "main" "x1" 0 ≠ mangleName "main" "x" 10 := by decide
 
 section V26Witness
 private def mkLet (x : String) (v : Int) : Stmt := .letS sp0 x .int false .int (.int sp0 v)
 private def printVar (x : String) : Stmt :=
   .exprS sp0 (.call sp0 .null (.ident sp0 (.fn [] .null) "println" false false false)
     [("", .ident sp0 .int x false false false)] false)
-/-- `fn main() { let x1 = 100; let x = 0; let x = 1; … let x = 10; println(x1); }` -/
+/-- `fn main() { let x1 = 100; let x = 0; let x = 1; … let x = 10; println(x1); }` — the witness
+of finding V26: before the fix the eleventh `x` shared the slot of `x1` and the VM printed `10`. -/
 private def v26prog : Program :=
   [{ name := "main", imports := [], singletons := [], globals := [], nImpls := 0,
      fns := [⟨sp0, "main", [], .null, 0, false,
        .mk sp0 .null ([mkLet "x1" 100] ++ (List.range 11).map (fun (i : Nat) => mkLet "x" (i : Int)) ++
          [printVar "x1"]) none⟩] }]
 
-/-- The counterexample to an unconditional `let` theorem, on the models themselves (kernel
-evaluation): the specification prints `100` … -/
+/-- On the models themselves (kernel evaluation): the specification prints `100` … -/
 example : (match runProgram { prog := v26prog } 100 with | .ok out _ => out | _ => "?") = "100\n" := by
   decide +kernel
-/-- … the compiled program on the VM prints `10`: the eleventh `x` overwrote `x1`. -/
+/-- … and so does the compiled program on the VM. -/
 example : (match compile v26prog "main" 100 with
     | .ok c => (match runMain c {} 50 1000 with | .ok s => s.st.out | _ => "?")
-    | .error e => e) = "10\n" := by
+    | .error e => e) = "100\n" := by
   decide +kernel
 end V26Witness
-
-/-- **Mangled variable names are injective** for identifiers that do not end in a digit:
-`@<module>_<ident><n>` then determines `(ident, n)`. -/
-theorem mangled_names_injective (mod x y : String) (c d : Nat) (hx : NoTrailingDigit x) (hy : NoTrailingDigit y)
-    (h : mangleName mod x c = mangleName mod y d) : x = y ∧ c = d :=
-  mangleName_inj mod x y c d hx hy h
 
 /-- **Statements on the VM.** `StRel`: level by level the specification's scopes and the
 compiler's scopes bind the same (tracked) identifiers, each mangled name's slot is a legal cell
@@ -504,7 +506,7 @@ theorem stmts_correct (cfg : Cfg) (code : Code) (lim : Limits) (mod : String) (T
 theorem compiled_stmts_correct (cfg : Cfg) (code : Code) (lim : Limits) (mod : String) (T : List String)
     (fuel : Nat) (ss : List Stmt) (env : CEnv) (spec : St) (s : VMState) (f : Frame) (rest : List Frame)
     (pre post : SCode) (r : NCode) (stk : List SVal) (mem : List (Int × Val))
-    (hs : Frag.okSs ss = true) (hT : ∀ x ∈ Frag.identsSs ss, x ∈ T) (hdig : ∀ x ∈ T, NoTrailingDigit x)
+    (hs : Frag.okSs ss = true) (hT : ∀ x ∈ Frag.identsSs ss, x ∈ T)
     (hws : Frag.wsSs mod ss env = true)
     (hrel : relocate (pre ++ (cSs mod ss env).1 ++ post) = some r)
     (hpost : ∀ l ∈ definedLabels (cSs mod ss env).1, l ∉ definedLabels post)
@@ -515,7 +517,7 @@ theorem compiled_stmts_correct (cfg : Cfg) (code : Code) (lim : Limits) (mod : S
     SimS code lim s (nI pre) (nI (cSs mod ss env).1) stk mem
       (StRel mod T (· ∈ varNames r) (slotFn r) lim s.mp (cSs mod ss env).2.scopes (cSs mod ss env).2.vm)
       spec (evalStmts cfg fuel ss spec) :=
-  Sim.compiled_stmts_correct cfg code lim mod T fuel ss env spec s f rest pre post r stk mem hs hT hdig hws hrel
+  Sim.compiled_stmts_correct cfg code lim mod T fuel ss env spec s f rest pre post r stk mem hs hT hws hrel
     hpost hcalls hfn hframe hst hheap
 
 section Example6
@@ -532,14 +534,14 @@ def loopEx : List Stmt :=
           .exprS sp0 (.assign sp0 (some .add) (idn "i") (.int sp0 1)) ] none) ]
 private def envL : CEnv := ⟨[[]], [], [], 0⟩
 private def csL : CState :=
-  { fns := [(("main", "main"), { name := "@main_main", code := [(.addMp 4, sp0)] })],
+  { fns := [(("main", "main"), { name := "@main.main", code := [(.addMp 4, sp0)] })],
     currFn := "main", currModule := "main" }
 private def symL : SCode :=
   [(.addMp 4, sp0)] ++ (cSs "main" loopEx envL).1 ++
-    [(.label "main_cleanup0", sp0), (.addMp (-4), sp0), (.ret, sp0)]
+    [(.label "main.cleanup.0", sp0), (.addMp (-4), sp0), (.ret, sp0)]
 private def relL : NCode := (stripLabels symL).map (resolve (labelIndex symL))
-private def codeL : Code := [{ name := "@main_main", code := renameVars relL }]
-private def vmL : VMState := { calls := [⟨"@main_main", 1⟩], mp := 4 }
+private def codeL : Code := [{ name := "@main.main", code := renameVars relL }]
+private def vmL : VMState := { calls := [⟨"@main.main", 1⟩], mp := 4 }
 private def TL : List String := ["i", "acc"]
 
 example : Frag.okSs loopEx = true ∧ Frag.depthSs loopEx ≤ 13 ∧ Frag.wsSs "main" loopEx envL = true := by
@@ -581,12 +583,11 @@ example : ∃ k mem', execN codeL {} k vmL = .next (reach vmL 25 k [] mem') ∧
       intro sc hsc p hp; simp [envL] at hsc; subst hsc; simp at hp⟩
   have h1 : Frag.okSs loopEx = true := by decide +kernel
   have h2 : ∀ x ∈ Frag.identsSs loopEx, x ∈ TL := by decide +kernel
-  have h3 : ∀ x ∈ TL, NoTrailingDigit x := by decide +kernel
   have h4 : Frag.wsSs "main" loopEx envL = true := by decide +kernel
   have h5 : ∀ l ∈ definedLabels (cSs "main" loopEx envL).1,
-      l ∉ definedLabels [((Instr.label "main_cleanup0" : SInstr), sp0), (.addMp (-4), sp0), (.ret, sp0)] := by
+      l ∉ definedLabels [((Instr.label "main.cleanup.0" : SInstr), sp0), (.addMp (-4), sp0), (.ret, sp0)] := by
     decide +kernel
-  have h6 : findCode codeL (⟨"@main_main", 1⟩ : Frame).fn = some (renameVars relL) := by
+  have h6 : findCode codeL (⟨"@main.main", 1⟩ : Frame).fn = some (renameVars relL) := by
     simp [findCode, codeL]
   have h7 : ∀ m ∈ varNames relL, 0 ≤ vmL.mp - (slotFn relL m : Int) ∧
       vmL.mp - (slotFn relL m : Int) < ((({} : Limits).memory : Nat) : Int) := by decide +kernel
@@ -594,8 +595,8 @@ example : ∃ k mem', execN codeL {} k vmL = .next (reach vmL 25 k [] mem') ∧
   -- start evaluating the specification; the kernel does that in `spec_facts`)
   obtain ⟨fuel, hfuel⟩ : ∃ n : Nat, n = 20 := ⟨20, rfl⟩
   have h := compiled_stmts_correct { prog := [] } codeL {} "main" TL fuel loopEx envL {} vmL
-    ⟨"@main_main", 1⟩ [] [(.addMp 4, sp0)] [(.label "main_cleanup0", sp0), (.addMp (-4), sp0), (.ret, sp0)]
-    relL [] [] h1 h2 h3 h4 relocate_symL h5 rfl h6 h7 hst rfl
+    ⟨"@main.main", 1⟩ [] [(.addMp 4, sp0)] [(.label "main.cleanup.0", sp0), (.addMp (-4), sp0), (.ret, sp0)]
+    relL [] [] h1 h2 h4 relocate_symL h5 rfl h6 h7 hst rfl
   subst hfuel
   obtain ⟨hok, hacc⟩ := spec_facts
   rcases hev : evalStmts { prog := [] } 20 loopEx {} with ⟨res, st'⟩
@@ -605,7 +606,7 @@ example : ∃ k mem', execN codeL {} k vmL = .next (reach vmL 25 k [] mem') ∧
   | ok u =>
     obtain ⟨_, mem', hrun, hrel'⟩ := h
     have hlk := hrel'.scopes.lookup TL (slotFn relL) {} vmL.mp "acc" (by decide)
-    have hρ : ρS (cSs "main" loopEx envL).2.scopes "acc" = some "@main_acc0" := by decide +kernel
+    have hρ : ρS (cSs "main" loopEx envL).2.scopes "acc" = some "@main.acc.0" := by decide +kernel
     rw [hρ] at hlk
     simp only at hacc
     cases hv : lookupScopes "acc" st'.scopes with
@@ -614,8 +615,8 @@ example : ∃ k mem', execN codeL {} k vmL = .next (reach vmL 25 k [] mem') ∧
       rw [hv] at hlk hacc
       simp only [Option.map_some, Option.some.injEq] at hacc
       obtain ⟨⟨_, _, hmem⟩, _⟩ := hlk
-      obtain ⟨k, hk⟩ := hrun.from_state (f := ⟨"@main_main", 1⟩) rfl
-      have hslot : vmL.mp - (slotFn relL "@main_acc0" : Int) = 3 := by decide +kernel
+      obtain ⟨k, hk⟩ := hrun.from_state (f := ⟨"@main.main", 1⟩) rfl
+      have hslot : vmL.mp - (slotFn relL "@main.acc.0" : Int) = 3 := by decide +kernel
       rw [hslot] at hmem
       refine ⟨k, mem', hk, ?_⟩
       cases v <;> simp [isInt] at hacc
@@ -670,7 +671,7 @@ model aside). -/
 theorem fn_body_correct (cfg : Cfg) (code : Code) (lim : Limits) (T : List String) (fuel : Nat)
     (cs : CState) (fd : FnDef) (stmts : List Stmt) (r : NCode) (spec : St) (s0 : VMState) (fname : String)
     (rest : List Frame)
-    (hs : Frag.okSs stmts = true) (hT : ∀ x ∈ Frag.identsSs stmts, x ∈ T) (hdig : ∀ x ∈ T, NoTrailingDigit x)
+    (hs : Frag.okSs stmts = true) (hT : ∀ x ∈ Frag.identsSs stmts, x ∈ T)
     (hws : Frag.wsSs cs.currModule stmts (fnEnv cs fd.name) = true)
     (hkey : cleanupKey cs.currModule fd.name ∉ T)
     (houter : ∀ sc ∈ cs.scopes, ∀ x ∈ T, sc.lookup x = none)
@@ -680,7 +681,7 @@ theorem fn_body_correct (cfg : Cfg) (code : Code) (lim : Limits) (T : List Strin
     (hmem : s0.mp + ((cSs cs.currModule stmts (fnEnv cs fd.name)).2.nv : Int) < (lim.memory : Int))
     (hspec : spec.scopes = [[]]) (hheap : s0.st.heap = spec.heap) :
     SimFn code lim s0 rest spec (evalStmts cfg fuel stmts spec) :=
-  fn_body_correct' cfg code lim T fuel cs fd stmts r spec s0 fname rest hs hT hdig hws hkey houter hrel hcalls hfn
+  fn_body_correct' cfg code lim T fuel cs fd stmts r spec s0 fname rest hs hT hws hkey houter hrel hcalls hfn
     hmp0 hmem hspec hheap
 
 /-- **The VM's driver on a top-level call** (`Core.Run`: poll, then a quantum of instructions).
@@ -691,7 +692,7 @@ at the call, when the specification completes the body; and with the specificati
 (same kind, message, span) when it ends in one. -/
 theorem fn_run (cfg : Cfg) (code : Code) (lim : Limits) (T : List String) (fuel : Nat)
     (cs : CState) (fd : FnDef) (stmts : List Stmt) (r : NCode) (spec : St) (s0 : VMState) (fname : String)
-    (hs : Frag.okSs stmts = true) (hT : ∀ x ∈ Frag.identsSs stmts, x ∈ T) (hdig : ∀ x ∈ T, NoTrailingDigit x)
+    (hs : Frag.okSs stmts = true) (hT : ∀ x ∈ Frag.identsSs stmts, x ∈ T)
     (hws : Frag.wsSs cs.currModule stmts (fnEnv cs fd.name) = true)
     (hkey : cleanupKey cs.currModule fd.name ∉ T)
     (houter : ∀ sc ∈ cs.scopes, ∀ x ∈ T, sc.lookup x = none)
@@ -709,7 +710,7 @@ theorem fn_run (cfg : Cfg) (code : Code) (lim : Limits) (T : List String) (fuel 
       ∃ K, ∀ quantum, K ≤ quantum → ∀ vfuel, ∃ s', run code lim quantum none (vfuel + 1) s0 = .fatal kd m sp s' ∧
         s'.st = s0.st
     | _ => True :=
-  Sim.fn_run cfg code lim T fuel cs fd stmts r spec s0 fname hs hT hdig hws hkey houter hrel hcalls hfn hmp0 hmem
+  Sim.fn_run cfg code lim T fuel cs fd stmts r spec s0 fname hs hT hws hkey houter hrel hcalls hfn hmp0 hmem
     hstack hcallLim hspec hheap
 
 section Example7
@@ -717,13 +718,13 @@ section Example7
 private def fdL : FnDef := ⟨sp0, "main", [], .null, 0, false, .mk sp0 .null loopEx none⟩
 /-- The compiler state in which pass 2 of `compileProgram` reaches `main`. -/
 private def csF : CState :=
-  { fns := [(("main", "@init"), { name := "@main_@init", code := [] }),
-            (("main", "main"), { name := "@main_main", code := [] })],
+  { fns := [(("main", "@init"), { name := "@main.@init", code := [] }),
+            (("main", "main"), { name := "@main.main", code := [] })],
     currFn := "@init", currModule := "main" }
 private def relF : NCode :=
   (stripLabels (fnCode csF fdL loopEx)).map (resolve (labelIndex (fnCode csF fdL loopEx)))
-private def codeF : Code := [{ name := "@main_main", code := renameVars relF }]
-private def vmF : VMState := { calls := [⟨"@main_main", 0⟩] }
+private def codeF : Code := [{ name := "@main.main", code := renameVars relF }]
+private def vmF : VMState := { calls := [⟨"@main.main", 0⟩] }
 
 private theorem relocate_fnCode : relocate (fnCode csF fdL loopEx) = some relF := by
   have h : (relocate (fnCode csF fdL loopEx)).isSome = true := by decide +kernel
@@ -739,11 +740,11 @@ example : (((compileFn 15 fdL).run csF).2.fns.lookup ("main", "main")).map (·.c
   rw [h.1]
   exact congrArg (Option.map (·.code)) h.2.1
 
-/-- … and a call of it on the VM — frame `⟨"@main_main", 0⟩`, empty stack, `mp = 0` — runs
+/-- … and a call of it on the VM — frame `⟨"@main.main", 0⟩`, empty stack, `mp = 0` — runs
 prologue, loop and epilogue and returns (no frames left) with `mp = 0` and an empty stack. -/
 example : ∃ k s', execN codeF {} k vmF = .next s' ∧ s'.calls = [] ∧ s'.mp = 0 ∧ s'.stack = [] := by
   obtain ⟨fuel, hfuel⟩ : ∃ n : Nat, n = 20 := ⟨20, rfl⟩
-  have h := fn_body_correct { prog := [] } codeF {} TL fuel csF fdL loopEx relF {} vmF "@main_main" []
+  have h := fn_body_correct { prog := [] } codeF {} TL fuel csF fdL loopEx relF {} vmF "@main.main" []
     (by decide +kernel) (by decide +kernel) (by decide +kernel) (by decide +kernel) (by decide +kernel)
     (by decide +kernel) relocate_fnCode rfl (by simp [findCode, codeF]) (by decide) (by decide +kernel) rfl rfl
   subst hfuel
@@ -759,7 +760,7 @@ example : ∃ k s', execN codeF {} k vmF = .next s' ∧ s'.calls = [] ∧ s'.mp 
 example : ∃ K, ∀ quantum, K ≤ quantum → ∀ vfuel, ∃ s', run codeF {} quantum none (vfuel + 1) vmF = .ok s' ∧
     s'.st = vmF.st ∧ s'.mp = 0 ∧ s'.stack = [] := by
   obtain ⟨fuel, hfuel⟩ : ∃ n : Nat, n = 20 := ⟨20, rfl⟩
-  have h := fn_run { prog := [] } codeF {} TL fuel csF fdL loopEx relF {} vmF "@main_main"
+  have h := fn_run { prog := [] } codeF {} TL fuel csF fdL loopEx relF {} vmF "@main.main"
     (by decide +kernel) (by decide +kernel) (by decide +kernel) (by decide +kernel) (by decide +kernel)
     (by decide +kernel) relocate_fnCode rfl (by simp [findCode, codeF]) (by decide) (by decide +kernel)
     (by decide) (by decide) rfl rfl
